@@ -19,13 +19,20 @@ import (
 
 func main() { hx.Main("C18", run) }
 
+func run(r *hx.Result, cfg hx.Config) {
+	runTables(r, cfg)
+	r.Rule += " Script model (coq/Model/Script.v, extracted): sequential histories of plain commands and scripts of all six variants (2-6 calls, failing calls under call and pcall, conditionals and read-modify-write on earlier results) are run on the server and on the model and compared reply by reply, record by record and on the final dataset; concurrent histories of 3-6 connections (scripts with busy loops between their calls, plain writes and reads on the same keys) are judged by model-free oracles (every EVAL/EVALSHA's records one contiguous block in call order, also when the script was aborted midway; EVALNA records once each in call order; EVALRO changes nothing; dataset after restart = live dataset) and by searching a schedule of the model's micro-steps that reproduces every reply, the file order and the final dataset. Interpreter pool (coq/Model/LuaPool.v): one-connection histories of EVAL*/SCRIPT LOAD/SCAN with one or two WHEREEVAL filters/scripts that SCAN with a filter, every filter and script trying a write through tile38.pcall; a plain SCAN/WHEREEVAL and an EVALRO never change dataset or append-only file, and the model says for every call which mode the interpreter carries. non-trivial there = a distinct history with at least two scripts that logged (sequential) / at least one atomic block of two or more records written while other connections were active (concurrent)."
+	r.Assumptions = append(r.Assumptions, "the string-object handlers of Model/ScriptKs.v (SET STRING/GET/DEL/PDEL/DROP/RENAME/RENAMENX/EXISTS) are compared with the server on every history; other commands are outside the script model's instance")
+	runScriptModel(r, cfg, rand.New(rand.NewSource(cfg.Seed^0x5c18)))
+}
+
 // names a script may try to reach; each is probed from inside a script as well
 var candidates = []string{"assert", "collectgarbage", "dofile", "error", "getfenv", "getmetatable", "ipairs", "load", "loadfile",
 	"loadstring", "module", "next", "pairs", "pcall", "print", "rawequal", "rawget", "rawset", "require", "select", "setfenv",
 	"setmetatable", "tonumber", "tostring", "type", "unpack", "xpcall", "newproxy", "_G", "_VERSION", "_GOPHER_LUA_VERSION", "_printregs",
 	"coroutine", "debug", "io", "math", "os", "package", "string", "table", "channel", "tile38", "json", "KEYS", "ARGV", "EVAL_CMD"}
 
-func run(r *hx.Result, cfg hx.Config) {
+func runTables(r *hx.Result, cfg hx.Config) {
 	r.Rule = "concurrent clients run read-modify-write scripts (EVAL: must be atomic — no lost update, an EVALRO observer never sees a half-applied two-key script; EVALNA: per-call only); script writes through every variant are compared across a restart; every write sub-command is tried through EVALRO; a Lua walker enumerates everything reachable from _G and it is compared with the names t38x extracted from lStatePool.New and with the documented allow-list. non-trivial = distinct scenario (variant, #clients, #iterations, script) in which at least two clients overlapped, or a distinct reachable Lua name."
 	r.Assumptions = []string{"the Lua VM (gopher-lua) executes a script on one goroutine", "Lua names are compared, not VM semantics"}
 	rng := rand.New(rand.NewSource(cfg.Seed))
